@@ -1,4 +1,4 @@
-\* generated by lib/slices.py from slice 'alias_early' - do not edit
+\* generated by lib/slices.py from slice 'erase_rm' - do not edit
 SPECIFICATION Spec
 VIEW view
 CHECK_DEADLOCK FALSE
@@ -9,29 +9,29 @@ CONSTANTS
  Vers = {"v50"}
  Idws = {16}
  CheckProps = {"C05", "C06", "C07", "C08", "C10", "C11", "C12", "C13", "C14", "C15", "C16", "C17", "C19"}
- OptSets = {{}}
+ OptSets = {{}, {"offline"}}
  RespTimeouts = {0}
- MaxConns = 1
+ MaxConns = 2
  MaxHeld = 1
- MaxUsed = 2
+ MaxUsed = 1
  AppKinds = {"publish"}
  PeerKinds = {"puback"}
  QosSet = {1}
- Topics = {"", "t1"}
- Aliases = {0, 1}
+ Topics = {"t1"}
+ Aliases = {0}
  InPids = {1}
  ExtraPids = {9}
  Rcs = {0}
  Cleans = {FALSE}
  KAs = {0}
- ConnRMs = {99999}
- ConnTAMs = {1}
+ ConnRMs = {2, 99999}
+ ConnTAMs = {99999}
  ConnMPSs = {99999}
  ConnSEIs = {10}
- SPs = {FALSE}
+ SPs = {TRUE}
  ConnackRcs = {0}
- AckRMs = {99999}
- AckTAMs = {1}
+ AckRMs = {2, 99999}
+ AckTAMs = {99999}
  AckMPSs = {99999}
  AckSEIs = {99999}
  SKAs = {99999}
@@ -40,7 +40,7 @@ CONSTANTS
  Intervals = {}
  Fire = FALSE
  Close = TRUE
- Erase = FALSE
+ Erase = TRUE
  IdOps = FALSE
  Crash = FALSE
  Garbage = FALSE
